@@ -179,20 +179,10 @@ func (n *Number) AsNode() (num Node) {
 		}
 		num = Int(i)
 	default:
-		f := float64(n.I)
-		if 0 < n.Frac {
-			f += float64(n.Frac) / float64(n.Div)
-		}
-		if n.Neg {
-			f = -f
-		}
-		if 0 < n.Exp {
-			x := int(n.Exp)
-			if n.NegExp {
-				x = -x
-			}
-			f *= math.Pow10(x)
-		}
+		// Composing the float from its parts is not correctly rounded; let
+		// strconv find the nearest float64 as AsNum does.
+		n.FillBig()
+		f, _ := strconv.ParseFloat(string(n.BigBuf), 64)
 		num = Float(f)
 	}
 	return
